@@ -206,14 +206,28 @@ Proof.
       rewrite Hm, ?El, ?Er; reflexivity.
 Qed.
 
+Definition frame_view_r (f : frame) (t : tree) : tree :=
+  cct (f_lbl f) (lf_view (f_lf f))
+      (if f_right f then view (f_sib f) else t) (if f_right f then t else view (f_sib f)).
+Fixpoint plug_r (fs : list frame) (t : tree) : tree :=
+  match fs with [] => t | f :: r => plug_r r (frame_view_r f t) end.
+Lemma plug_r_set_sib fs : forall i p' f t,
+  nth_error fs i = Some f -> view p' = view (f_sib f) -> plug_r (set_sib fs i p') t = plug_r fs t.
+Proof.
+  induction fs as [|g fs IH]; intros [|i] p' f t Hn Hv; cbn in Hn; try discriminate.
+  - injection Hn as ->. cbn [set_sib plug_r]. f_equal. unfold frame_view_r. cbn [f_lbl f_lf f_right f_sib].
+    now rewrite Hv.
+  - cbn [set_sib plug_r]. eapply IH; eauto.
+Qed.
+
 Section RemoveProofs.
   Variable k : bytes.
 
   Definition whole_r (s : rstate) : tree :=
     match s with
-    | RDown fs d cur => plug fs (fst (fst (remove d k (view cur))))
-    | RRet fs res => plug fs (view res)
-    | RCol0 fs lbl lf l r | RCol1 fs lbl lf l r _ => plug fs (cct lbl (lf_view lf) (view l) (view r))
+    | RDown fs d cur => plug_r fs (fst (fst (remove d k (view cur))))
+    | RRet fs res => plug_r fs (view res)
+    | RCol0 fs lbl lf l r | RCol1 fs lbl lf l r _ => plug_r fs (cct lbl (lf_view lf) (view l) (view r))
     | RDone res => view res
     end.
   Definition inv_r (s : rstate) : Prop :=
@@ -248,7 +262,7 @@ Section RemoveProofs.
     destruct s as [fs d cur|fs res|fs lbl lf l r|fs lbl lf l r lp|res]; cbn [rstep]; intros [Hok Hs].
     - (* descent *)
       unfold rdown_step.
-      replace (whole_r (RDown fs d cur)) with (plug fs (fst (fst (remove d k (view (deref1 cur))))))
+      replace (whole_r (RDown fs d cur)) with (plug_r fs (fst (fst (remove d k (view (deref1 cur))))))
         by (cbn [whole_r]; now rewrite view_deref1).
       destruct (deref1 cur) as [|t|c0 k0 v0|c lbl lf l r] eqn:E;
         try (cbn [whole_r rframes inv_r]; rewrite view_full; split; [reflexivity|split; [exact Hok|exact I]]).
@@ -263,16 +277,102 @@ Section RemoveProofs.
              destruct (bytes_eqb k1 k); reflexivity.
           -- destruct lf as [| |c1 k1 v1|]; try exact I; try contradiction. destruct (bytes_eqb k1 k); exact I.
         * destruct (bit (bits_of k) (d + length lbl));
-            cbn [whole_r inv_r rframes plug frame_view f_lbl f_lf f_right f_sib];
+            cbn [whole_r inv_r rframes plug_r]; unfold frame_view_r; cbn [f_lbl f_lf f_right f_sib];
             (split; [reflexivity|split; [constructor; [split; [reflexivity|exact Hnr]|exact Hok]|exact I]]).
     - (* return to the parent frame *)
-      destruct fs as [|f fs']; cbn [whole_r inv_r rframes]; [auto|].
-      inversion Hok as [|? ? [Hd Hnr] Hok']; subst. split; [|split; [exact Hok'|exact Hnr]].
-      cbn [plug]. f_equal. unfold frame_view.
-      destruct (f_right f); admit.
+      destruct fs as [|f fs']; cbn [whole_r inv_r rframes] in *;
+        [split; [reflexivity|split; [constructor|exact I]]|].
+      apply Forall_cons_iff in Hok as [[Hd Hnr] Hok']. split; [|split; [exact Hok'|exact Hnr]].
+      cbn [plug_r]. unfold frame_view_r. destruct (f_right f); reflexivity.
     - cbn [whole_r inv_r rframes] in *. split; [reflexivity|split; [exact Hok|split; [exact Hs|apply non_nil_view]]].
     - cbn [whole_r inv_r rframes] in *. destruct Hs as [Hnr ->]. rewrite <- non_nil_view.
-      rewrite pcollapse_view by exact Hnr. auto.
-    - auto.
-  Admitted.
+      rewrite pcollapse_view by exact Hnr. split; [reflexivity|split; [exact Hok|exact I]].
+    - cbn [whole_r inv_r rframes] in *. split; [reflexivity|split; [exact Hok|exact I]].
+  Qed.
+
+  Lemma frames_ok_rwith s fs : frames_ok fs -> inv_r s -> inv_r (rwith_frames s fs).
+  Proof. intros Hf [_ Hs]. destruct s; cbn [rwith_frames inv_r rframes] in *; split; auto; constructor. Qed.
+
+  Lemma rapply_whole s e : inv_r s -> rlegal evicts s e ->
+    whole_r (rapply k s e) = whole_r s /\ inv_r (rapply k s e).
+  Proof.
+    intros Hi Hl. destruct e as [|p'|p'|i p'|p'].
+    - now apply rstep_whole.
+    - destruct s as [fs d cur|fs res|fs lbl lf l r|fs lbl lf l r lp|res]; cbn [rapply rlegal] in *; try contradiction.
+      + pose proof (evicts_view _ _ Hl) as Hv. destruct Hi as [Hok Hs]. cbn [whole_r inv_r rframes] in *.
+        rewrite ?Hv. repeat split; auto; try (rewrite ?Hv; assumption).
+      + pose proof (evicts_view _ _ Hl) as Hv. destruct Hi as [Hok [Hn Hp]]. cbn [whole_r inv_r rframes] in *.
+        rewrite ?Hv. repeat split; auto; try (rewrite ?Hv; assumption).
+    - destruct s as [fs d cur|fs res|fs lbl lf l r|fs lbl lf l r lp|res]; cbn [rapply rlegal] in *; try contradiction.
+      + pose proof (evicts_view _ _ Hl) as Hv. destruct Hi as [Hok Hs]. cbn [whole_r inv_r rframes] in *.
+        rewrite ?Hv. repeat split; auto; try (rewrite ?Hv; assumption).
+      + pose proof (evicts_view _ _ Hl) as Hv. destruct Hi as [Hok [Hn Hp]]. cbn [whole_r inv_r rframes] in *.
+        rewrite ?Hv. repeat split; auto; try (rewrite ?Hv; assumption).
+    - assert (rapply k s (REvictSib i p') = rwith_frames s (set_sib (rframes s) i p')) as -> by (destruct s; reflexivity).
+      assert (rlegal evicts s (REvictSib i p') -> exists f, nth_error (rframes s) i = Some f /\ evicts (f_sib f) p') as HL
+        by (destruct s; cbn [rlegal]; auto).
+      destruct (HL Hl) as (f & Hn & He). pose proof (evicts_view _ _ He) as Hv.
+      split; [|apply frames_ok_rwith; [apply frames_ok_set_sib; apply Hi|exact Hi]].
+      destruct s; cbn [rwith_frames whole_r rframes] in *; try reflexivity; eapply plug_r_set_sib; eauto.
+    - destruct s as [fs d cur|fs res|fs lbl lf l r|fs lbl lf l r lp|res]; cbn [rapply rlegal] in *; try contradiction.
+      destruct Hi as [Hok Hs]. cbn [whole_r inv_r rframes] in *. rewrite (evicts_view _ _ Hl). repeat split; auto.
+  Qed.
+
+  Theorem remove_eviction_off_path_invisible es : forall s,
+    inv_r s -> rlegal_run k evicts s es -> whole_r (rrun k s es) = whole_r s.
+  Proof.
+    induction es as [|e r IH]; intros s Hi Hl; [reflexivity|].
+    cbn [rrun rlegal_run] in *. destruct Hl as [Hl Hr].
+    destruct (rapply_whole s e Hi Hl) as [W I']. rewrite IH by assumption. exact W.
+  Qed.
+
+  Corollary remove_descent_correct p es res :
+    rlegal_run k evicts (RDown [] 0 p) es -> rrun k (RDown [] 0 p) es = RDone res ->
+    view res = fst (fst (tremove k (view p))).
+  Proof.
+    intros Hl E.
+    pose proof (remove_eviction_off_path_invisible es (RDown [] 0 p) (conj (Forall_nil _) I) Hl) as W.
+    rewrite E in W. exact W.
+  Qed.
 End RemoveProofs.
+
+(* ---------- the transient variant of finding F1 on the model ---------- *)
+(* committed {80, 000100}; Insert(80ff0180) makes the clean leaf "80" the embedded
+   leaf of a new dirty node X (the root's right child); RemoveExisting(8001), an
+   ABSENT key: on the way up the root dereferences its left child (a fetch that
+   evicts leaf "80" from the value cache), then its right child X, which now reads
+   as nil, and collapses: "80" and "80ff0180" are gone *)
+Definition f1t_tree : ptree :=
+  fst (lazy_run (fun x => x) PNil
+         [LIns [128] [1]; LIns [0; 1; 0] [2]; LCommit; LIns [128; 255; 1; 128] [3]]).
+Definition evict_own_leaf (p : ptree) : ptree :=
+  match p with
+  | PNode c lbl (PLeaf true k0 v0) l r => PNode c lbl (PRef (Leaf k0 v0)) l r
+  | _ => p
+  end.
+Definition f1t_steps (n : nat) : list revent := repeat RStep n.
+(* the state in which the root has dereferenced n.Left and not yet n.Right *)
+Definition f1t_mid : rstate := rrun [128; 1] (RDown [] 0 f1t_tree) (f1t_steps 8).
+Definition f1t_evicted : ptree :=
+  match f1t_mid with RCol1 _ _ _ _ r _ => evict_own_leaf r | _ => PNil end.
+
+Theorem eviction_f1_transient_refuted :
+  (* the fault-free operation changes nothing (the key is absent) *)
+  (exists res, rrun [128; 1] (RDown [] 0 f1t_tree) (f1t_steps 10) = RDone res /\
+               contents (view res) = [([0; 1; 0], [2]); ([128], [1]); ([128; 255; 1; 128], [3])]) /\
+  (* the eviction is a legal cache event in that state ... *)
+  (exists fs lbl lf l r lp, f1t_mid = RCol1 fs lbl lf l r lp /\ evict r f1t_evicted) /\
+  (* ... and the finished operation has dropped the right subtree *)
+  (exists res, rrun [128; 1] f1t_mid [REvictR f1t_evicted; RStep; RStep] = RDone res /\
+               contents (view res) = [([0; 1; 0], [2])]).
+Proof.
+  split; [|split].
+  - eexists. split; vm_compute; reflexivity.
+  - assert (exists fs lbl lf l c2 lbl2 k0 v0 l2 r2 lp,
+              f1t_mid = RCol1 fs lbl lf l (PNode c2 lbl2 (PLeaf true k0 v0) l2 r2) lp) as
+        (fs & lbl & lf & l & c2 & lbl2 & k0 & v0 & l2 & r2 & lp & E) by (vm_compute; repeat eexists).
+    exists fs, lbl, lf, l, (PNode c2 lbl2 (PLeaf true k0 v0) l2 r2), lp. split; [exact E|].
+    unfold f1t_evicted. rewrite E. cbn [evict_own_leaf]. apply ev_in_lf, ev_leaf.
+  - eexists. split; vm_compute; reflexivity.
+Qed.
+
